@@ -3,6 +3,7 @@ package props
 // C10 — fastgo codec agrees with the standard codec and BLength is exact.
 
 import (
+	"sort"
 	"fmt"
 	"strings"
 
@@ -58,6 +59,11 @@ func C10(r *vlib.Run) {
 	np := r.N(14, 160)
 	for i := 0; i < np; i++ {
 		p := idl.Generate(rng.Fork("p"), c10Opts(rng))
+		if i%2 == 0 {
+			// structs whose number of required fields sits at and around the word sizes of the "is set" bookkeeping
+			wide := []int{8, 9, 16, 17, 24, 32, 33, 64, 65, 7, 15, 40}
+			idl.AddWideRequired(p, wide[(i/2)%len(wide)], rng.Intn)
+		}
 		var opts []string
 		switch i % 4 {
 		case 1:
@@ -76,6 +82,7 @@ func C10(r *vlib.Run) {
 		}
 		c10Unit(r, rng.Fork(u.Name), u, tm)
 	}
+	r.Require("perturb/required-fields/(full-block)", "perturb/required-fields/(last8)", "perturb/required-fields/(all)", "perturb/field/(required)")
 }
 
 func c10Unit(r *vlib.Run, rng *vlib.Rng, u *harness.Unit, tm *typeMap) {
@@ -138,6 +145,58 @@ func c10Unit(r *vlib.Run, rng *vlib.Rng, u *harness.Unit, tm *typeMap) {
 				}
 				b := refcodec.Insert(refcodec.Cut(enc, m.Start, m.End), m.Start, refcodec.FieldBytes(tt, int16(m.ID), 1))
 				push(map[string]interface{}{"op": "fastread", "type": key, "bytes": hexOf(b), "compare_std": true}, c10Case{kind: "perturb", def: d, val: v, sent: b, info: fmt.Sprintf("field %s retagged to wire type %d (%s)", f.Name, tt, d.EffReq(f))})
+			}
+			// several required fields missing at once: by block of eight (in declaration order of the required
+			// fields), the first / last eight, all of them, a random subset
+			var reqMarks []refcodec.FieldMark
+			for _, m := range marks {
+				if m.Depth == 0 && d.EffReq(d.FieldByID(m.ID)) == idl.ReqRequired {
+					reqMarks = append(reqMarks, m)
+				}
+			}
+			if nr := len(reqMarks); nr >= 2 {
+				sets := map[string][]int{}
+				for b0 := 0; b0 < nr; b0 += 8 {
+					var idx []int
+					for j := b0; j < b0+8 && j < nr; j++ {
+						idx = append(idx, j)
+					}
+					sets[fmt.Sprintf("block%d", b0/8)] = idx
+				}
+				var all, last8, sub []int
+				for j := 0; j < nr; j++ {
+					all = append(all, j)
+					if j >= nr-8 {
+						last8 = append(last8, j)
+					}
+					if rng.Bool() {
+						sub = append(sub, j)
+					}
+				}
+				sets["all"], sets["last8"], sets["subset"] = all, last8, sub
+				names := make([]string, 0, len(sets))
+				for nme := range sets {
+					names = append(names, nme)
+				}
+				sort.Strings(names)
+				for _, nme := range names {
+					idx := sets[nme]
+					if len(idx) == 0 {
+						continue
+					}
+					b := enc
+					for j := len(idx) - 1; j >= 0; j-- { // back to front: earlier offsets stay valid
+						b = refcodec.Cut(b, reqMarks[idx[j]].Start, reqMarks[idx[j]].End)
+					}
+					cls := nme
+					if strings.HasPrefix(nme, "block") {
+						cls = "block"
+						if len(idx) == 8 {
+							cls = "full-block"
+						}
+					}
+					push(map[string]interface{}{"op": "fastread", "type": key, "bytes": hexOf(b), "compare_std": true}, c10Case{kind: "perturb", def: d, val: v, sent: b, info: fmt.Sprintf("required-fields deleted: %s of %d (%s)", nme, nr, cls)})
+				}
 			}
 			// truncations
 			cut := map[int]bool{}
